@@ -324,6 +324,29 @@ theorem inp_field_precision (q : PrecReq) (hq : q ∈ Gen.precisionReq) (r : Row
   simp only [PrecReq.ok, Bool.and_eq_true, List.all_eq_true] at hok
   exact bound_of_meets r.spec q.need (hok.2 r hr) x y (spec_error_bound r.spec x y h)
 
+/-- **`required_pressure_legal_roundtrip`** — the lower limit `_write_options` applies to REQUIRED PRESSURE, as extracted
+from the source on this run: it is tested on the value IN FILE UNITS (EPANET's 0.1 is psi or m), so for every unit system
+(`conv`) and every value that is legal in file units the formatter gets the converted value itself — and what is read back
+obeys the slot's bound (`inp_field_precision`); a value below the limit is written as the limit in file units -/
+theorem required_pressure_legal_roundtrip :
+    Gen.requiredPressureClamp.1 = true ∧ Gen.requiredPressureClamp.2.2.2.1 = true ∧
+    Gen.requiredPressureClamp.2.2.1 = Gen.requiredPressureClamp.2.2.2.2 ∧
+    (∀ (conv : Rat → Rat) (x : Rat), conv x ≥ Gen.requiredPressureClamp.2.2.1 → clampWrite Gen.requiredPressureClamp conv x = conv x) ∧
+    (∀ (conv : Rat → Rat) (x : Rat), conv x < Gen.requiredPressureClamp.2.2.1 → clampWrite Gen.requiredPressureClamp conv x = Gen.requiredPressureClamp.2.2.1) := by
+  have hb : Gen.requiredPressureClamp = (true, true, (1 : Rat) / 10, true, (1 : Rat) / 10) := by decide +kernel
+  rw [hb]
+  refine ⟨rfl, rfl, rfl, ?_, ?_⟩
+  · intro conv x h
+    simp only [clampWrite, if_true, decide_eq_true_eq]
+    rw [if_pos h]
+  · intro conv x h
+    simp only [clampWrite, if_true, decide_eq_true_eq]
+    rw [if_neg (not_le.mpr h)]
+
+/-- the mistake the statement guards against: testing the SI value (a legal 0.08 m = 0.114 psi is replaced by the limit) -/
+example : clampWrite (false, true, (1 : Rat) / 10, false, (1 : Rat) / 10) (fun v => v * 1422 / 1000) ((8 : Rat) / 100) ≠ (8 : Rat) / 100 * 1422 / 1000 := by
+  decide +kernel
+
 /-- non-vacuity: the reaction coefficients are required (and printed) with four decimals, the pipe lengths with eleven
 significant digits; a two-decimal format does not meet a four-decimal requirement -/
 example : (Gen.precisionReq.any fun q => q.need == .fixed 4 && !(q.rows Gen.table).isEmpty) = true ∧
